@@ -28,7 +28,8 @@ Definition content (nonempty : bool) : list N := if nonempty then [1] else [].
 Definition model_outcome (is_move : bool) (k : dkind) (otherdev srcmissing nonempty : bool) : outcome :=
   let c := content nonempty in
   let s := scenario k otherdev srcmissing c in
-  let (s', r) := if is_move then move_file s src_path (dst_path k) else copy_file s src_path (dst_path k) in
+  let F := scenario_faults k in
+  let (s', r) := if is_move then move_file_f F s src_path (dst_path k) else copy_file_f F s src_path (dst_path k) in
   {| o_ok := match r with None => true | Some _ => false end;
      o_src_present := present s' src_path;
      o_src_orig := negb srcmissing && reads s' src_path c;
@@ -54,7 +55,7 @@ Record verdict := { spec : bool; model_eq : bool }.
 
 Definition nz (x : N) : bool := negb (x =? 0).
 
-(** all fields as numbers: op (0 CopyFile, 1 MoveFile), kind (0..9), other device?, source missing?,
+(** all fields as numbers: op (0 CopyFile, 1 MoveFile), kind (0..13, the last four provoke a real fault), other device?, source missing?,
     content non-empty?, then the observed ok / src present / src original / dst original / third party intact *)
 Definition check_case (op kind otherdev srcmissing nonempty ok srcp srco dsto third : N) : verdict :=
   let k := kind_of_N kind in
